@@ -6,6 +6,7 @@ times, in any order, or never.  Composition with C01 (same operations ⇒ same s
 server's rebuild (`Store.latest` applies the log as remote operations) gives equal states.
 -/
 import Orda.Proofs.Protocol
+import Orda.Proofs.ProtocolJoin
 namespace Orda.Props.C05
 open Orda
 
@@ -46,5 +47,25 @@ theorem server_records_monotone {S S' : PSys} (inv : PInv S) (st : PStep S S') :
 theorem log_exactly_the_pushed {cuids : List String} {S : PSys} (h : PReach cuids S) :
     (∀ o, o ∈ S.log ↔ ∃ cl ∈ S.clients, o ∈ cl.buf.take (S.recOf cl.cuid).cseq) ∧ S.log.Nodup :=
   ⟨log_is_exactly_issued h, log_nodup h⟩
+
+/-- late joiners: when every joined client's checkpoint is at the end of the log and nothing is left to
+    push, every joined client — whenever and through whatever duplicated/delayed subscribe exchange it
+    joined — has applied all foreign operations of the log in log order and holds every operation once -/
+theorem late_joiners_converge {cuids : List (String × Bool)} {S : JSys} (h : JReach cuids S)
+    (hq : ∀ cl ∈ S.clients, cl.joined = true →
+      cl.base.cp.sseq = S.log.length ∧ cl.base.cp.cseq = cl.base.buf.length) :
+    ∀ cl ∈ S.clients, cl.joined = true →
+      cl.base.applied = S.log.filter (fun o => o.id.cuid ≠ cl.base.cuid) ∧
+      cl.base.buf = S.log.filter (fun o => o.id.cuid = cl.base.cuid) ∧
+      (cl.base.applied ++ cl.base.buf).Perm S.log :=
+  join_quiescent_converged h hq
+
+/-- the log is exactly what joined clients issued after their join, each once, per client in issue order -/
+theorem log_is_exactly_issued_with_late_joiners {cuids : List (String × Bool)} {S : JSys} (h : JReach cuids S) :
+    (∀ o, o ∈ S.log ↔ ∃ cl ∈ S.clients, cl.joined = true ∧ o ∈ cl.base.buf.take (S.recOf cl.base.cuid).cseq) ∧
+    (S.log.map (fun o => (o.id.cuid, o.id.seq))).Nodup ∧
+    (∀ cl ∈ S.clients, S.log.filter (fun o => o.id.cuid = cl.base.cuid) =
+      if cl.joined then cl.base.buf.take (S.recOf cl.base.cuid).cseq else []) :=
+  join_log_is_exactly_issued h
 
 end Orda.Props.C05
